@@ -151,6 +151,7 @@ def sites_of(prog, f):
                                         [(L.ge(res, L.lin_const(-(1 << 63))), "no signed underflow"),
                                          (L.ge(L.lin_const((1 << 63) - 1), res), "no signed overflow")], loc))
                         continue
+                umax = {"(u8": 255, "(u16": 65535, "(u32": (1 << 32) - 1}.get(tty.split(",")[0], L.USIZE_MAX)
                 if op is not None and op.k == "binop":
                     base = op.a.replace("WithOverflow", "")
                     l, r = ctx.lin(op.b), ctx.lin(op.c)
@@ -159,12 +160,12 @@ def sites_of(prog, f):
                         continue
                     if base == "Add" and l is not None and r is not None:
                         out.append(Site(f, b, "overflow", "%s + %s" % (L.lin_repr(l), L.lin_repr(r)),
-                                        [(L.ge(L.lin_const(L.USIZE_MAX), L.lin_add(l, r)), "no overflow")], loc))
+                                        [(L.ge(L.lin_const(umax), L.lin_add(l, r)), "no overflow")], loc))
                         continue
                     if base == "Mul" and l is not None and r is not None and (L.lin_is_const(l) or L.lin_is_const(r)):
                         prod = L.lin_scale(r, l[1]) if L.lin_is_const(l) else L.lin_scale(l, r[1])
                         out.append(Site(f, b, "overflow", "%s * %s" % (L.lin_repr(l), L.lin_repr(r)),
-                                        [(L.ge(L.lin_const(L.USIZE_MAX), prod), "no overflow")], loc))
+                                        [(L.ge(L.lin_const(umax), prod), "no overflow")], loc))
                         continue
                 out.append(Site(f, b, "overflow", deep_repr(cond)[:80], [], loc, hard="non-linear arithmetic"))
             elif msg == "BoundsCheck":
@@ -302,6 +303,15 @@ def range_of(fn, e, depth=0):
             a, b = range_of(fn, e.b, depth + 1), range_of(fn, e.c, depth + 1)
             if a and b:
                 return (a[0] + b[0], a[1] + b[1]) if op == "Add" else (a[0] - b[1], a[1] - b[0])
+    if e.k == "field" and e.a.k == "call" and str(e.b).isdigit() and not e.a.a.dest["p"]:
+        tt = e.a.a.fn.locals[e.a.a.dest["l"]]["t"]
+        if tt.startswith("(") and tt.endswith(")"):
+            parts = [x.strip() for x in tt[1:-1].split(",")]
+            i = int(e.b)
+            if i < len(parts):
+                tr = {"u8": (0, 255), "u16": (0, 65535), "u32": (0, (1 << 32) - 1), "bool": (0, 1)}.get(parts[i])
+                if tr:
+                    return tr
     if e.k == "call":
         ty = e.a.fn.locals[e.a.dest["l"]]["t"] if not e.a.dest["p"] else ""
         tr = {"u8": (0, 255), "u16": (0, 65535), "u32": (0, (1 << 32) - 1), "bool": (0, 1)}.get(ty)
@@ -354,6 +364,37 @@ def ok_postcondition_some(prog, g, memo):
     return memo[g.key]
 
 
+def ok_postcondition_values(prog, g, memo):
+    """{field: [(coef_sign, rel, const)...]}: linear facts about `unwrap(<state>.FIELD)` that hold on every
+    Ok return of g (from the branch edges dominating each Ok exit)."""
+    key = ("vals", g.key)
+    if key in memo:
+        return memo[key]
+    lctx = L.Ctx(g, cm.view_info)
+    econs = L.edge_constraints(g, lctx)
+    res = None
+    for b, kind, e in result_kind_of_ret(g):
+        if kind != "ok" or b not in g.reachable(0):
+            if kind == "expr" and b in g.reachable(0):
+                res = {}
+            continue
+        cur = {}
+        for lin, rel in L.facts_at(g, b, econs):
+            vs = L.lin_vars(lin)
+            if len(vs) != 1 or not (isinstance(vs[0], tuple) and vs[0][0] == "expr"):
+                continue
+            m = re.match(r"^unwrap\((?:as_ref\()?[^()]*(?:\(\))?\.(\w+)\)?\)$", vs[0][1])
+            if not m:
+                continue
+            cur.setdefault(m.group(1), []).append((lin[vs[0]], lin.get(1, 0), rel))
+        if res is None:
+            res = cur
+        else:
+            res = {k: [x for x in v if x in res.get(k, [])] for k, v in cur.items() if k in res}
+    memo[key] = res or {}
+    return memo[key]
+
+
 def peel_unwrap_target(e):
     """strip as_ref/as_mut/clone adapters around the unwrapped Option/Result expression"""
     d = 0
@@ -394,6 +435,8 @@ class Discharger:
     def analyse(self, f):
         prog, rep = self.prog, self.rep
         sites, lctx = sites_of(prog, f)
+        if f.key in getattr(self, "div_only", ()):
+            sites = [s_ for s_ in sites if s_.kind == "div"]
         econs = L.edge_constraints(f, lctx)
         contract = self.contract_facts(f, lctx)
         se = some_edges(f)
@@ -568,7 +611,15 @@ class Discharger:
         """interval facts for opaque expression variables occurring in the goal"""
         out = []
         for v in L.lin_vars(goal[0]):
-            if isinstance(v, tuple) and v[0] == "expr":
+            if isinstance(v, tuple) and v[0] in ("expr", "field"):
+                m = re.match(r"^unwrap\((?:as_ref\()?branch\((\w+)\(.*\)\)\.Continue\.0\.(\w+)\)?\)$", v[1])
+                if m:
+                    for c in f.calls():
+                        if c.name == m.group(1):
+                            for g in self.prog.callee_fns(c):
+                                for coef, const, rel in ok_postcondition_values(self.prog, g, self.post_memo).get(m.group(2), []):
+                                    out.append(({v: coef, 1: const}, rel))
+                            break
                 e = self.find_expr(f, v[1])
                 if e is not None:
                     r = range_of(f, e)
@@ -652,7 +703,18 @@ def check(ctx, rep, prog, tag):
     fns = [prog.by_key[k] for k in scope if not in_boundary(prog.by_key[k]) or prog.by_key[k] in entries]
     import os
     debug = os.environ.get("C04_DEBUG")
+    # boundary functions called directly from in-scope code: their division/remainder sites (divisor built
+    # from parameters) are lifted as preconditions -- a zero divisor is a panic no primitive contract excuses
+    in_keys = {f.key for f in fns}
+    bfns = []
+    for f in fns:
+        for c in f.calls():
+            for t in prog.callee_fns(c):
+                if t.key not in in_keys and in_boundary(t) and t not in bfns and t.kind != "closure":
+                    bfns.append(t)
     D = Discharger(prog, rep, entries, fns, tag)
+    D.div_only = {t.key for t in bfns}
+    fns = fns + bfns
     # callees first: iterate to a fixpoint on lifted preconditions
     order = sorted(fns, key=lambda f: f.path)
     final = {}
